@@ -162,6 +162,10 @@ let () =
   reg "sim_sigfillset" (fun () -> int_of_z (run sys_sigfillset));
   reg "sim_sigemptyset" (fun () -> int_of_z (run sys_sigemptyset));
   reg "sim_sigaction" (fun (s : int) (k : int) -> int_of_z (run (sys_sigaction (z_of_int s) (z_of_int k))));
+  (* sigaction(sig, NULL, &old): a pure query of the calling process's disposition (no event; the
+     library itself never queries, a changed library may) *)
+  reg "sim_sigaction_query" (fun (s : int) ->
+      match disp_of (curp !world) (z_of_int s) with DDefault -> 0 | DIgnore -> 1 | _ -> 2);
   reg "sim_sigmask" (fun (how : int) (has : bool) (set : int array) ->
       let ns = if has then Some (zl (Array.to_list set)) else None in
       let (e, old) = run (sys_sigmask (z_of_int how) ns) in
